@@ -85,35 +85,45 @@ def in_thread(f):
 # ---- diagnosis of unmarshallable structures (signature = root cause) ----------------------------
 _EXACT = (type(None), bool, int, float, str, bytes)
 
-def find_unmarshallable(x, path='', depth=0):
-  """(label, path) of the first node marshal would reject, or None. Iterative on the right spine is not
-  needed: structures here are at most ~1000 deep and this runs under the harness limit."""
-  t = type(x)
-  if t in _EXACT:
-    return None
-  if t in (list, tuple):
-    for i, y in enumerate(x):
-      r = find_unmarshallable(y, '%s[%d]' % (path, i) if depth < 6 else path, depth + 1)
-      if r:
-        if r[0] == 'value:str-subclass' and t is list and i == 1 and len(x) == 2 and x[0] == 'U':
-          return ('U-repr-str-subclass', r[1])
-        return r
-    return None
-  if t is dict:
-    for k, y in x.items():
-      if type(k) not in _EXACT:
-        if isinstance(k, str):
-          return ('dict-key-str-subclass', path + '{key}')
-        return ('dict-key-non-str', path + '{key} (%s)' % type(k).__name__)
-      r = find_unmarshallable(y, '%s{%s}' % (path, k if isinstance(k, str) and len(k) < 12 else '.') if depth < 6 else path,
-                              depth + 1)
-      if r:
-        return r
-    return None
-  for base in (str, int, float, bytes, list, tuple, dict):
-    if isinstance(x, base):
-      return ('value:%s-subclass' % base.__name__, path)
-  return ('value:object', '%s (%s)' % (path, t.__name__))
+def find_unmarshallable(x):
+  """(label, path) of the first node (depth-first, in order) marshal would reject, or None.
+  Iterative: the structures can be ~1000 deep and this may run under the production recursion limit."""
+  stack = [(x, '', 0, None)]
+  while stack:
+    x, path, depth, parent = stack.pop()
+    t = type(x)
+    if t in _EXACT:
+      continue
+    if t in (list, tuple):
+      kids = []
+      for i, y in enumerate(x):
+        is_u = (t is list and i == 1 and len(x) == 2 and x[0] == 'U')
+        kids.append((y, '%s[%d]' % (path, i) if depth < 6 else path, depth + 1, 'U' if is_u else None))
+      stack.extend(reversed(kids))
+      continue
+    if t is dict:
+      kids = []
+      bad = None
+      for k, y in x.items():
+        if type(k) not in _EXACT:
+          bad = ('dict-key-str-subclass', path + '{key}') if isinstance(k, str) else \
+                ('dict-key-non-str', path + '{key} (%s)' % type(k).__name__)
+          break
+        kids.append((y, '%s{%s}' % (path, k if isinstance(k, str) and len(k) < 12 else '.') if depth < 6 else path,
+                     depth + 1, None))
+      if bad:
+        # nodes queued before this dict come first in document order only if they precede it; they were
+        # already popped, so this is the first offending node on the current path
+        return bad
+      stack.extend(reversed(kids))
+      continue
+    if isinstance(x, str) and parent == 'U':
+      return ('U-repr-str-subclass', path)
+    for base in (str, int, float, bytes, list, tuple, dict):
+      if isinstance(x, base):
+        return ('value:%s-subclass' % base.__name__, path)
+    return ('value:object', '%s (%s)' % (path, t.__name__))
+  return None
 
 
 def first_difference(a, b):
@@ -331,24 +341,38 @@ def _state_equal(a, b):
   return True
 
 
-def _loose_equal(x, y):
-  """Equality of two engine-side reprs that may contain unmarshallable nodes (compare those by repr)."""
-  if isinstance(x, (list, tuple)) and isinstance(y, (list, tuple)):
-    return len(x) == len(y) and all(_loose_equal(p, q) for p, q in zip(x, y))
-  if isinstance(x, dict) and isinstance(y, dict):
-    if len(x) != len(y):
-      return False
-    ky = {repr(k): k for k in y}
-    for k in x:
-      if repr(k) not in ky or not _loose_equal(x[k], y[ky[repr(k)]]):
+def _loose_equal(a, b):
+  """Equality of two engine-side reprs that may contain unmarshallable nodes (compared with ==, failing that
+  by identity). Iterative: reprs can be ~1000 deep."""
+  stack = [(a, b)]
+  while stack:
+    x, y = stack.pop()
+    if isinstance(x, (list, tuple)) and isinstance(y, (list, tuple)):
+      if len(x) != len(y):
         return False
-    return True
-  if isinstance(x, float) and isinstance(y, float):
-    return x == y or (x != x and y != y)
-  try:
-    return type(x) is type(y) and bool(x == y)
-  except Exception:
-    return x is y
+      stack.extend(zip(x, y))
+    elif isinstance(x, dict) and isinstance(y, dict):
+      if len(x) != len(y):
+        return False
+      ky = {}
+      for k in y:
+        ky[pyvals.short(k, 80)] = k
+      for k in x:
+        r = pyvals.short(k, 80)
+        if r not in ky:
+          return False
+        stack.append((x[k], y[ky[r]]))
+    elif isinstance(x, float) and isinstance(y, float):
+      if not (x == y or (x != x and y != y)):
+        return False
+    else:
+      try:
+        same = type(x) is type(y) and bool(x == y)
+      except Exception:
+        same = x is y
+      if not same:
+        return False
+  return True
 
 
 FTYPES = ['Any', 'Any', 'Any', 'Text', 'Numeric', 'Int', 'Bool', 'Date', 'DateTime:UTC', 'Choice', 'ChoiceList',
